@@ -149,7 +149,7 @@ func Flush() {
 	defer collMu.Unlock()
 	for i, c := range collectors {
 		c.mu.Lock()
-		c.s.Hashes = c.s.Hashes[:0]
+		c.s.Hashes = []string{}
 		for h := range c.hashes {
 			c.s.Hashes = append(c.s.Hashes, h)
 		}
